@@ -31,6 +31,15 @@ Pruned(P, K, k) ==
     K = "lf" /\ \E j \in 1..(k - 1) : IsPrefixOf(P[j], P[k]) /\ Len(P[j]) < Len(P[k])
 Inserted(P, K) == {k \in 1..Len(P) : ~Pruned(P, K, k)}
 
+(* Prepared form: pruned patterns replaced by a string no input can spell, *)
+(* and leftmost-first then treated as leftmost-longest (pruning is the     *)
+(* only place where the two differ in the automaton).  Semantically        *)
+(* identical; it lets a caller that holds on to the prepared list avoid    *)
+(* re-deriving the pruning at every step (used by Prod on big lists).      *)
+Unspellable == <<-2>>
+Prep(P, K) == [k \in 1..Len(P) |-> IF Pruned(P, K, k) THEN Unspellable ELSE P[k]]
+PrepK(K) == IF K = "lf" THEN "ll" ELSE K
+
 IsNode(P, K, t) == \E k \in Inserted(P, K) : IsPrefixOf(t, P[k])
 Nodes(P, K) == UNION {{SubSeq(P[k], 1, n) : n \in 0..Len(P[k])} : k \in Inserted(P, K)}
 
